@@ -47,13 +47,10 @@ Proof.
 Qed.
 
 Lemma R_put_none cf s t it :
-  R s t -> inv_cells t -> o_doc t (fst (fst (fst it))) = None ->
-  R (put_text_document cf s it None) (open_item cf None t it).
+  R s t -> R (put_text_document cf s it None) (open_item cf None t it).
 Proof.
-  intros [H1 H2 H3 H4 H5] Hi Hn. destruct it as [[[u lang] v] text]. cbn [fst] in Hn.
+  intros [H1 H2 H3 H4 H5]. destruct it as [[[u lang] v] text].
   split; cbn in *; intros; unfold upd; try rewrite aget_aset; try rewrite H1; auto.
-  rewrite H3. destruct (c =? u) eqn:E; [|reflexivity].
-  apply N.eqb_eq in E. subst c. apply Hi. exact Hn.
 Qed.
 
 Lemma R_remove s t u : R s t -> R (remove_text_document s u) (close_doc t u).
@@ -91,8 +88,9 @@ Qed.
 
 Lemma inv_cells_open cf owner t it : inv_cells t -> inv_cells (open_item cf owner t it).
 Proof.
-  intros Hi. destruct it as [[[u lang] v] text]. intros x. cbn. unfold upd.
-  destruct (x =? u); [discriminate|apply Hi].
+  intros Hi. destruct it as [[[u lang] v] text]. intros x. destruct owner; cbn; unfold upd.
+  - destruct (x =? u); [discriminate|apply Hi].
+  - destruct (x =? u); [discriminate|apply Hi].
 Qed.
 
 Lemma inv_cells_close t u : inv_cells t -> inv_cells (close_doc t u).
@@ -113,7 +111,7 @@ Proof.
 Qed.
 
 Lemma o_nb_open cf owner t it : o_nb (open_item cf owner t it) = o_nb t.
-Proof. destruct it as [[[u lang] v] text]. reflexivity. Qed.
+Proof. destruct it as [[[u lang] v] text], owner; reflexivity. Qed.
 
 Lemma o_nb_fold_open cf owner items : forall t,
   o_nb (fold_left (open_item cf owner) items t) = o_nb t.
@@ -171,17 +169,41 @@ Proof.
   rewrite G. unfold upd. rewrite H1. reflexivity.
 Qed.
 
-Lemma R_text_content es : forall s t,
-  R s t -> forallb (fun e => is_some (o_doc t (fst (fst e)))) es = true ->
-  exists s', text_content s es = (s', false) /\ R s' (fold_left text_entry es t).
+Lemma R_text_entries es : forall s t,
+  R s t ->
+  exists s', text_content s es = (s', snd (text_entries t es)) /\ R s' (fst (text_entries t es)).
 Proof.
-  induction es as [|[[u v] cs] r IH]; intros s t HR Hw.
+  induction es as [|[[u v] cs] r IH]; intros s t HR.
   - exists s. split; [reflexivity|exact HR].
-  - cbn [forallb fst] in Hw. apply andb_true_iff in Hw. destruct Hw as [Hu Hr].
-    destruct (R_text_entry s t u v cs HR Hu) as (s1 & E1 & R1).
-    cbn [text_content fold_left]. rewrite E1.
-    apply IH; [exact R1|].
-    rewrite forallb_forall in *. intros e He. rewrite is_some_text_entry. apply Hr. exact He.
+  - cbn [text_content text_entries].
+    destruct (o_doc t u) as [[d l]|] eqn:Eo.
+    + destruct (R_text_entry s t u v cs HR) as (s1 & E1 & R1); [rewrite Eo; reflexivity|].
+      rewrite E1. apply IH. exact R1.
+    + destruct cs as [|c cs'].
+      * cbn [update_all]. assert (Et : text_entry t (u, v, []) = t) by (unfold text_entry; rewrite Eo; reflexivity).
+        rewrite Et. apply IH. exact HR.
+      * cbn [update_all]. unfold ws_update_text_document.
+        rewrite (eq_doc _ _ HR u : aget u (w_docs s) = _), Eo.
+        exists s. split; [reflexivity|exact HR].
+Qed.
+
+Lemma text_entries_frame es : forall t,
+  o_nb (fst (text_entries t es)) = o_nb t /\
+  (forall x, is_some (o_doc (fst (text_entries t es)) x) = is_some (o_doc t x)) /\
+  (inv_cells t -> inv_cells (fst (text_entries t es))).
+Proof.
+  induction es as [|[[u v] cs] r IH]; intros t; [repeat split; auto|].
+  cbn [text_entries].
+  assert (Hgo : o_nb (fst (text_entries (text_entry t (u, v, cs)) r)) = o_nb t /\
+    (forall x, is_some (o_doc (fst (text_entries (text_entry t (u, v, cs)) r)) x) = is_some (o_doc t x)) /\
+    (inv_cells t -> inv_cells (fst (text_entries (text_entry t (u, v, cs)) r)))).
+  { destruct (IH (text_entry t (u, v, cs))) as (A & B & C). split; [|split].
+    - rewrite A. destruct (o_doc t u) as [[d l]|] eqn:E; unfold text_entry; rewrite E; reflexivity.
+    - intros x. rewrite B. apply is_some_text_entry.
+    - intros Hi. apply C. intros x Hx. assert (Hs := is_some_text_entry t (u, v, cs) x).
+      rewrite Hx in Hs. cbn in Hs. destruct (o_doc t x) eqn:E; [discriminate|].
+      unfold text_entry. destruct (o_doc t u) as [[d l]|]; cbn; apply Hi; exact E. }
+  destruct (o_doc t u) as [[d l]|]; [exact Hgo|]. destruct cs; [exact Hgo|]. repeat split; auto.
 Qed.
 
 Lemma inv_cells_text_entry t e : inv_cells t -> inv_cells (text_entry t e).
@@ -431,12 +453,20 @@ Proof.
   intros E H Hx n' nb. rewrite E. unfold upd. destruct (n' =? n); [apply Hx|apply H].
 Qed.
 
+Lemma R_report s t : R s t -> R (with_errs s (w_errs s + 1)) (report t).
+Proof.
+  intros [H1 H2 H3 H4 H5]. split; cbn in *; intros; auto. rewrite H5. reflexivity.
+Qed.
+
+Lemma R_handle_finish r q :
+  snd r = snd q -> R (fst r) (fst q) -> R (handle r) (finish q).
+Proof.
+  intros E HR. unfold handle, finish. rewrite E. destruct (snd q); [apply R_report|]; exact HR.
+Qed.
+
 Lemma op_refines_did_open cf it : refines_on cf (DidOpen it).
 Proof.
   intros s t HR Hc Hn Hw. cbn [impl_step spec_step].
-  assert (Ho : o_doc t (fst (fst (fst it))) = None).
-  { destruct it as [[[u lang] v] text]. cbn [wf_op fst] in *.
-    destruct (o_doc t u); [discriminate|reflexivity]. }
   split; [apply R_put_none; assumption|]. split; [apply inv_cells_open; exact Hc|].
   apply (inv_nodup_same_nb t); [apply o_nb_open|exact Hn].
 Qed.
@@ -444,13 +474,17 @@ Qed.
 Lemma op_refines_did_change cf u v cs : refines_on cf (DidChange u v cs).
 Proof.
   intros s t HR Hc Hn Hw. cbn [impl_step spec_step wf_op] in *.
-  destruct (o_doc t u) as [[d l]|] eqn:E; [|discriminate].
-  unfold lsp_did_change, get_text_document. destruct HR as [H1 H2 H3 H4 H5]. cbn in H1, H2, H3, H4, H5.
-  rewrite H1, E. cbn [handle fst snd].
-  split; [|split].
-  - split; cbn; intros; unfold upd; try rewrite aget_aset; try rewrite H1; auto.
-  - intros x. cbn. unfold upd. destruct (x =? u); [discriminate|apply Hc].
-  - exact Hn.
+  unfold lsp_did_change, get_text_document.
+  rewrite (eq_doc _ _ HR u : aget u (w_docs s) = _).
+  destruct (o_doc t u) as [[d l]|] eqn:E.
+  - cbn [handle fst snd]. destruct HR as [H1 H2 H3 H4 H5]. cbn in H1, H2, H3, H4, H5.
+    split; [|split].
+    + split; cbn; intros; unfold upd; try rewrite aget_aset; try rewrite H1; auto.
+    + intros x. cbn. unfold upd. destruct (x =? u); [discriminate|apply Hc].
+    + exact Hn.
+  - destruct cs as [|c cs']; cbn [handle fst snd].
+    + auto.
+    + split; [apply R_report; exact HR|]. split; [exact Hc|exact Hn].
 Qed.
 
 Lemma op_refines_did_close cf u : refines_on cf (DidClose u).
@@ -495,7 +529,7 @@ Lemma o_doc_fold_open_ext cf owner items : forall t t',
   o_doc (fold_left (open_item cf owner) items t) = o_doc (fold_left (open_item cf owner) items t').
 Proof.
   induction items as [|[[[u lang] v] text] r IH]; intros t t' H; [exact H|].
-  cbn [fold_left]. apply IH. cbn. rewrite H. reflexivity.
+  cbn [fold_left]. apply IH. destruct owner; cbn; rewrite H; reflexivity.
 Qed.
 
 Lemma o_doc_fold_close_ext cs : forall t t',
@@ -512,24 +546,27 @@ Proof.
   apply o_doc_fold_close_ext. apply o_doc_fold_open_ext. exact H.
 Qed.
 
+Lemma o_doc_report_finish q x : o_doc (finish q) x = o_doc (fst q) x.
+Proof. unfold finish. destruct (snd q); reflexivity. Qed.
+
 Lemma op_refines_nb_change cf n v meta cc : refines_on cf (NbChange n v meta cc).
 Proof.
-  intros s t HR Hc Hn Hw. cbn [impl_step spec_step wf_op] in *.
-  destruct (o_nb t n) as [nb|] eqn:En; [|discriminate].
-  assert (Hnb := Hn n nb En).
+  intros s t HR Hc Hn Hw. cbn [impl_step spec_step] in *.
   unfold update_notebook_document.
-  assert (Eg : aget n (w_nbs s) = Some nb) by (rewrite <- En; apply (eq_nb _ _ HR)).
-  rewrite Eg. cbn [n_version n_meta n_type n_cells].
+  rewrite (eq_nb _ _ HR n : aget n (w_nbs s) = _).
+  destruct (o_nb t n) as [nb|] eqn:En.
+  2:{ cbn [handle fst snd]. split; [apply R_report; exact HR|]. split; [exact Hc|exact Hn]. }
+  assert (Hnb := Hn n nb En).
+  cbn [n_version n_meta n_type n_cells].
   set (meta' := match meta with Some m => Some m | None => n_meta nb end).
   destruct cc as [cc|].
   - (* cell changes *)
-    apply andb_true_iff in Hw. destruct Hw as [Hst Htx].
+    cbn [wf_op] in Hw. rewrite En in Hw.
     set (t1 := o_with_nb t (upd (o_nb t) n (Some (mkNb v meta' (n_type nb) (new_cells (n_cells nb) cc))))).
-    assert (Htx1 : forallb (fun e => is_some (o_doc (after_structure cf n t1 cc) (fst (fst e)))) (cc_text cc) = true).
-    { rewrite (o_doc_after_structure_ext cf n cc t1 t eq_refl). exact Htx. }
     assert (Hcells : nodupb (cell_docs (new_cells (n_cells nb) cc)) = true).
     { unfold new_cells. rewrite cell_docs_fold_data. destruct (cc_structure cc) as [st|]; [|exact Hnb].
-      apply andb_true_iff in Hst. tauto. }
+      apply andb_true_iff in Hw. tauto. }
+    set (q := text_entries (after_structure cf n t1 cc) (cc_text cc)).
     assert (HR3 : exists s3,
       match cc_structure cc with
       | None =>
@@ -542,24 +579,29 @@ Proof.
                 (with_nbs s (aset n (mkNb v meta' (n_type nb)
                    (splice_cells (fold_left apply_cell_data (cc_data cc) (n_cells nb)) st)) (w_nbs s)))))
           (cc_text cc)
-      end = (s3, false) /\ R s3 (fold_left text_entry (cc_text cc) (after_structure cf n t1 cc))).
-    { unfold after_structure in *. unfold new_cells in t1. destruct (cc_structure cc) as [st|].
-      - apply andb_true_iff in Hst. destruct Hst as [_ Hd].
-        apply R_text_content; [|exact Htx1].
+      end = (s3, snd q) /\ R s3 (fst q)).
+    { unfold q, after_structure in *. unfold new_cells in t1. destruct (cc_structure cc) as [st|].
+      - apply andb_true_iff in Hw. destruct Hw as [_ Hd].
+        apply R_text_entries.
         apply R_fold_remove. apply R_fold_put.
         rewrite (data_splice_commute (n_cells nb) st (cc_data cc) Hnb Hd).
         apply (R_with_nbs s t n (Some _) HR).
-      - apply R_text_content; [|exact Htx1].
+      - apply R_text_entries.
         rewrite (fold_apply_cell_data (cc_data cc) (n_cells nb) Hnb).
         apply (R_with_nbs s t n (Some _) HR). }
     destruct HR3 as (s3 & E3 & R3).
-    split; [|split].
-    + destruct (cc_structure cc); rewrite E3; exact R3.
-    + apply inv_cells_fold_text. unfold after_structure. destruct (cc_structure cc).
+    destruct (text_entries_frame (cc_text cc) (after_structure cf n t1 cc)) as (Fnb & Fdoc & Finv).
+    fold q in Fnb, Fdoc, Finv.
+    assert (Hinv : inv_cells (after_structure cf n t1 cc)).
+    { unfold after_structure. destruct (cc_structure cc).
       * apply inv_cells_fold_close. apply inv_cells_fold_open. apply inv_cells_with_nb. exact Hc.
-      * apply inv_cells_with_nb. exact Hc.
+      * apply inv_cells_with_nb. exact Hc. }
+    split; [|split].
+    + destruct (cc_structure cc); rewrite E3; apply (R_handle_finish (s3, snd q) q eq_refl R3).
+    + intros x. unfold finish. destruct (snd q); cbn; apply (Finv Hinv x).
     + apply (inv_nodup_upd t _ n (Some (mkNb v meta' (n_type nb) (new_cells (n_cells nb) cc)))); [|exact Hn|].
-      * rewrite o_nb_fold_text. unfold after_structure. destruct (cc_structure cc); [|reflexivity].
+      * transitivity (o_nb (fst q)); [unfold finish; destruct (snd q); reflexivity|].
+        rewrite Fnb. unfold after_structure. destruct (cc_structure cc); [|reflexivity].
         rewrite o_nb_fold_close, o_nb_fold_open. reflexivity.
       * intros nb' E. injection E as <-. exact Hcells.
   - (* no cell changes *)
@@ -633,7 +675,7 @@ Proof.
   - intros n nb E. apply (Hn' n). rewrite <- E. symmetry. apply (eq_nb _ _ HR).
 Qed.
 
-(* ---------------- a well-formed notification is never answered with an error ---------------- *)
+(* ---------------- no error when every change refers to something open ---------------- *)
 
 Lemma o_errs_fold {A} (f : obs -> A -> obs) (l : list A) :
   (forall t a, o_errs (f t a) = o_errs t) -> forall t, o_errs (fold_left f l t) = o_errs t.
@@ -642,29 +684,62 @@ Proof.
 Qed.
 
 Lemma o_errs_open cf owner t it : o_errs (open_item cf owner t it) = o_errs t.
-Proof. destruct it as [[[u lang] v] text]. reflexivity. Qed.
+Proof. destruct it as [[[u lang] v] text], owner; reflexivity. Qed.
 
 Lemma o_errs_text t e : o_errs (text_entry t e) = o_errs t.
 Proof. destruct e as [[u v] cs]. unfold text_entry. destruct (o_doc t u) as [[d l]|]; reflexivity. Qed.
 
-Lemma o_errs_step cf t o : o_errs (spec_step cf t o) = o_errs t.
+Lemma text_entries_open es : forall t,
+  forallb (fun e => is_some (o_doc t (fst (fst e)))) es = true ->
+  snd (text_entries t es) = false /\ o_errs (fst (text_entries t es)) = o_errs t.
 Proof.
-  destruct o; cbn [spec_step]; try reflexivity.
+  induction es as [|[[u v] cs] r IH]; intros t H; [split; reflexivity|].
+  cbn [forallb fst] in H. apply andb_true_iff in H. destruct H as [Hu Hr].
+  cbn [text_entries]. destruct (o_doc t u) as [[d l]|] eqn:E; [|discriminate].
+  destruct (IH (text_entry t (u, v, cs))) as [A B].
+  { rewrite forallb_forall in *. intros e He. rewrite is_some_text_entry. apply Hr. exact He. }
+  split; [exact A|]. rewrite B. apply o_errs_text.
+Qed.
+
+Lemma o_errs_step cf t o : targets_open cf t o = true -> o_errs (spec_step cf t o) = o_errs t.
+Proof.
+  destruct o; cbn [spec_step targets_open]; intros Ht; try reflexivity.
   - apply o_errs_open.
-  - destruct (o_doc t u) as [[d l]|]; reflexivity.
+  - destruct (o_doc t u) as [[d l]|]; [reflexivity|discriminate].
   - rewrite (o_errs_fold _ _ (o_errs_open cf (Some n))). reflexivity.
-  - destruct (o_nb t n); [|reflexivity]. destruct cc as [cc|]; [|reflexivity].
-    rewrite (o_errs_fold _ _ o_errs_text). unfold after_structure.
+  - destruct (o_nb t n) as [nb|]; [|discriminate]. destruct cc as [cc|]; [|reflexivity].
+    cbn [is_some andb] in Ht.
+    match goal with |- o_errs (finish (text_entries ?T _)) = _ =>
+      destruct (text_entries_open (cc_text cc) T) as [A B] end.
+    { match goal with |- forallb (fun e => is_some (o_doc (after_structure cf n ?T1 cc) _)) _ = _ =>
+        rewrite (o_doc_after_structure_ext cf n cc T1 t eq_refl) end. exact Ht. }
+    unfold finish. rewrite A, B. unfold after_structure.
     destruct (cc_structure cc); [|reflexivity].
     rewrite (o_errs_fold close_doc _ (fun t u => eq_refl)).
     rewrite (o_errs_fold _ _ (o_errs_open cf (Some n))). reflexivity.
   - rewrite (o_errs_fold close_doc _ (fun t u => eq_refl)). reflexivity.
 Qed.
 
-Theorem wf_no_error cf fs h : wf_history cf fs h = true -> w_errs (run_ws cf fs h) = 0.
+Fixpoint all_targets_open (cf : encoding * sync_kind) (t : obs) (h : list op) : bool :=
+  match h with
+  | [] => true
+  | o :: r => targets_open cf t o && all_targets_open cf (spec_step cf t o) r
+  end.
+
+Lemma o_errs_hist cf h : forall t,
+  all_targets_open cf t h = true -> o_errs (fold_left (spec_step cf) h t) = o_errs t.
 Proof.
-  intros Hw. rewrite (eq_errs _ _ (fold_refines cf fs h Hw) : w_errs _ = _).
-  unfold spec_run. rewrite (o_errs_fold _ _ (o_errs_step cf)). reflexivity.
+  induction h as [|o r IH]; intros t H; [reflexivity|].
+  cbn [all_targets_open] in H. apply andb_true_iff in H. destruct H as [Ho Hr].
+  cbn [fold_left]. rewrite (IH _ Hr). apply o_errs_step. exact Ho.
+Qed.
+
+Theorem open_targets_no_error cf fs h :
+  wf_history cf fs h = true -> all_targets_open cf (spec_init fs) h = true ->
+  w_errs (run_ws cf fs h) = 0.
+Proof.
+  intros Hw Ht. rewrite (eq_errs _ _ (fold_refines cf fs h Hw) : w_errs _ = _).
+  unfold spec_run. rewrite (o_errs_hist cf h _ Ht). reflexivity.
 Qed.
 
 (* ---------------- closed documents and cells are absent; `get` answers Disk ---------------- *)
@@ -711,29 +786,93 @@ Proof.
   cbn [fold_left]. rewrite IH, memb_cons. cbn. unfold upd. destruct (x =? c), (memb x r); reflexivity.
 Qed.
 
-Lemma is_some_fold_text es : forall t x,
-  is_some (o_doc (fold_left text_entry es t) x) = is_some (o_doc t x).
-Proof.
-  induction es as [|e r IH]; intros t x; [reflexivity|]. cbn [fold_left]. rewrite IH. apply is_some_text_entry.
-Qed.
-
-(* a cell closed by the structure part of a well-formed notebook change is absent afterwards *)
+(* a cell closed by the structure part of a well-formed change of an open notebook is absent afterwards *)
 Theorem closed_cell_absent cf fs h n v meta cc st c :
   wf_history cf fs (h ++ [NbChange n v meta (Some cc)]) = true ->
+  aget n (w_nbs (run_ws cf fs h)) <> None ->
   cc_structure cc = Some st -> In c (st_close st) ->
   get_text_document (run_ws cf fs (h ++ [NbChange n v meta (Some cc)])) c = Disk c.
 Proof.
-  intros Hw Est Hc.
+  intros Hw Hopen Est Hc.
   assert (HR := fold_refines cf fs _ Hw).
+  assert (HR0 := fold_refines cf fs h (wf_prefix cf fs h _ Hw)).
+  rewrite (eq_nb _ _ HR0 n : aget n _ = _) in Hopen.
   unfold get_text_document. rewrite (eq_doc _ _ HR c : aget c _ = _).
   unfold spec_run. rewrite fold_left_app. cbn [fold_left spec_step].
-  unfold wf_history in Hw. rewrite wf_hist_app in Hw. apply andb_true_iff in Hw. destruct Hw as [_ Hw].
-  cbn [wf_hist wf_op] in Hw. fold (spec_run cf fs h) in *.
-  destruct (o_nb (spec_run cf fs h) n) as [nb|]; [|discriminate].
+  fold (spec_run cf fs h) in *.
+  destruct (o_nb (spec_run cf fs h) n) as [nb|]; [|contradiction].
   match goal with |- match ?x with _ => _ end = _ => assert (E : is_some x = false) end.
-  { rewrite is_some_fold_text. unfold after_structure. rewrite Est. rewrite o_doc_fold_close.
+  { rewrite o_doc_report_finish.
+    match goal with |- is_some (o_doc (fst (text_entries ?T ?es)) c) = _ =>
+      rewrite (proj1 (proj2 (text_entries_frame es T)) c) end.
+    unfold after_structure. rewrite Est. rewrite o_doc_fold_close.
     apply memb_in in Hc. rewrite Hc. reflexivity. }
   match goal with |- match ?x with _ => _ end = _ => destruct x as [[d l]|] end; [discriminate|reflexivity].
+Qed.
+
+(* ---------------- a change never opens a document: what is not open stays absent ---------------- *)
+
+Lemma update_all_domain u v cs : forall s x,
+  is_some (aget x (w_docs (fst (update_all s u v cs)))) = is_some (aget x (w_docs s)).
+Proof.
+  induction cs as [|c r IH]; intros s x; [reflexivity|].
+  cbn [update_all]. unfold ws_update_text_document.
+  destruct (aget u (w_docs s)) as [[d l]|] eqn:E; [|reflexivity].
+  rewrite IH. cbn. rewrite aget_aset. destruct (x =? u) eqn:Ex; [|reflexivity].
+  apply N.eqb_eq in Ex. subst x. rewrite E. reflexivity.
+Qed.
+
+Lemma text_content_domain es : forall s x,
+  is_some (aget x (w_docs (fst (text_content s es)))) = is_some (aget x (w_docs s)).
+Proof.
+  induction es as [|[[u v] cs] r IH]; intros s x; [reflexivity|].
+  cbn [text_content]. assert (H := update_all_domain u v cs s x).
+  destruct (update_all s u v cs) as [s' e]. cbn [fst] in H. destruct e; [exact H|].
+  rewrite IH. exact H.
+Qed.
+
+Lemma handle_docs r : w_docs (handle r) = w_docs (fst r).
+Proof. unfold handle. destruct (snd r); reflexivity. Qed.
+
+Lemma fold_put_docs cf n items : forall s x,
+  ~ In x (map (fun it => fst (fst (fst it))) items) ->
+  aget x (w_docs (fold_left (fun s it => put_text_document cf s it (Some n)) items s)) = aget x (w_docs s).
+Proof.
+  induction items as [|[[[u lang] v] text] r IH]; intros s x Hx; [reflexivity|].
+  cbn [fold_left]. rewrite IH by (intros H; apply Hx; right; exact H).
+  cbn. rewrite aget_aset. destruct (x =? u) eqn:E; [|reflexivity].
+  apply N.eqb_eq in E. exfalso. apply Hx. left. cbn. congruence.
+Qed.
+
+(* in ANY state: textDocument/didChange never makes a document appear (a change for a closed or
+   never-opened uri leaves it absent: it keeps being served from disk); a notebook change opens
+   exactly the documents its structure part lists under didOpen *)
+Theorem change_never_opens cf s :
+  (forall u v cs x, aget x (w_docs s) = None ->
+     get_text_document (impl_step cf s (DidChange u v cs)) x = Disk x) /\
+  (forall n v meta cc x, aget x (w_docs s) = None ->
+     (forall c st, cc = Some c -> cc_structure c = Some st ->
+                   ~ In x (map (fun it => fst (fst (fst it))) (st_open st))) ->
+     get_text_document (impl_step cf s (NbChange n v meta cc)) x = Disk x).
+Proof.
+  split.
+  - intros u v cs x Hx. unfold get_text_document. cbn [impl_step]. rewrite handle_docs.
+    unfold lsp_did_change, get_text_document.
+    destruct (aget u (w_docs s)) as [[d l]|] eqn:E.
+    + cbn. rewrite aget_aset. destruct (x =? u) eqn:Ex; [|rewrite Hx; reflexivity].
+      apply N.eqb_eq in Ex. subst x. congruence.
+    + destruct cs; cbn; rewrite Hx; reflexivity.
+  - intros n v meta cc x Hx Hno. unfold get_text_document. cbn [impl_step]. rewrite handle_docs.
+    assert (G : is_some (aget x (w_docs (fst (update_notebook_document cf s n v meta cc)))) = false).
+    { unfold update_notebook_document. destruct (aget n (w_nbs s)) as [nb|]; [|cbn; rewrite Hx; reflexivity].
+      destruct cc as [cc|]; [|cbn; rewrite Hx; reflexivity].
+      destruct (cc_structure cc) as [st|] eqn:Est.
+      - rewrite text_content_domain.
+        rewrite (proj1 (fold_remove_docs (st_close st) _ x)).
+        destruct (memb x (st_close st)); [reflexivity|].
+        rewrite fold_put_docs by (apply (Hno cc st eq_refl Est)). cbn. rewrite Hx. reflexivity.
+      - rewrite text_content_domain. cbn. rewrite Hx. reflexivity. }
+    destruct (aget x (w_docs (fst (update_notebook_document cf s n v meta cc)))) as [[d l]|]; [discriminate|reflexivity].
 Qed.
 
 (* ---------------- which document a didChange reaches (the link to C04) ---------------- *)
